@@ -9,6 +9,14 @@
 //! are non-empty lower-case hex; sizes are plain decimal `u64`; no near-miss
 //! lines, no case variants of keywords, at most one Size line and at most one
 //! line per algorithm for a file.
+//!
+//! Workload shape (C10 / C11): besides the small random documents, every
+//! n-th document is large (`big_count`: 17-300 files), the API direction
+//! inserts in fixed adversarial orders (`API_SHAPES`) and may start from a
+//! parsed text, and names come from `fresh_name_rich`: assembled from the
+//! clauses of the classification rule (`clause_name`), derived from another
+//! name of the document (`related_name`: shared trailing components, shared
+//! prefix, letter case, lossy-UTF-8 twins) or long.
 
 use crate::oracle::distinfo::{
     classify, contains, path_plain, Alg, DocModel, FileModel, Kind, Rec, ALGS,
@@ -189,6 +197,463 @@ pub fn fresh_name(
 }
 
 // ---------------------------------------------------------------------------
+// Names built from the clauses of the classification rule, names related to
+// names already in the document, long names (C10 / C11 only; C12 keeps
+// `fresh_name`)
+// ---------------------------------------------------------------------------
+
+/// Heads: the rule's own prefixes, alone and stacked, their near misses and
+/// letter-case variants, and the same text preceded by something else.
+const CLAUSE_HEADS: [&[u8]; 40] = [
+    b"patch-",
+    b"patch-local-",
+    b"emul-linux-patch-",
+    b"emul-linux-patch-local-",
+    b"emul-netbsd32-patch-",
+    b"emul-netbsd32-patch-local-",
+    b"emul-sunos-5.11-patch-",
+    b"emul--patch-",
+    b"emul--patch-local-",
+    b"emul-linux-",
+    b"emul-linux-local-",
+    b"emul-",
+    b"emul-linux-patch",
+    b"emul-linux-patch_",
+    b"emul-linux-patch-local",
+    b"emul_linux-patch-",
+    b"emullinux-patch-",
+    b"foo-patch-",
+    b"foo-patch-local-",
+    b"foo-emul-linux-patch-",
+    b"xpatch-",
+    b"mypatch-local-",
+    b"patch",
+    b"patch_",
+    b"patch.",
+    b"patch-local",
+    b"patch-local_",
+    b"patch-locale-",
+    b"patch-patch-",
+    b"patch-patch-local-",
+    b"patch-local-patch-",
+    b"patch-emul-linux-patch-",
+    b"Patch-",
+    b"PATCH-",
+    b"Patch-local-",
+    b"patch-Local-",
+    b"patch-LOCAL-",
+    b"Emul-linux-patch-",
+    b"EMUL-linux-patch-",
+    b"emul-linux-Patch-",
+];
+
+const CLAUSE_BODIES: [&[u8]; 18] = [
+    b"",
+    b"x",
+    b"aa",
+    b"ab",
+    b"Makefile",
+    b"src_main.c",
+    b"paths.c",
+    b"configure",
+    b"2.7.6",
+    b"1",
+    b"local",
+    b"local-x",
+    b"patch-aa",
+    b"patch-local-x",
+    b"-patch-x",
+    b"orig",
+    b"tar",
+    b"\xc3\xa9",
+];
+
+/// Tails: the rule's exceptions, stacked, near misses, letter-case variants,
+/// and harmless suffixes (so that an exception ends up in the middle).
+const CLAUSE_TAILS: [&[u8]; 30] = [
+    b".orig",
+    b".rej",
+    b"~",
+    b".tar.gz",
+    b".tar.xz",
+    b".tar.bz2",
+    b".tar.",
+    b".tar",
+    b".tgz",
+    b".original",
+    b".origin",
+    b".ori",
+    b"orig",
+    b"_orig",
+    b".rejected",
+    b".re",
+    b"rej",
+    b"~1",
+    b"~~",
+    b".ORIG",
+    b".Orig",
+    b".REJ",
+    b".TAR.gz",
+    b".Tar.xz",
+    b".c",
+    b".gz",
+    b".1",
+    b"-",
+    b".",
+    b"\xe9",
+];
+
+/// Free tokens for the unstructured mode: fragments of the rule's patterns
+/// and of the line syntax.
+const CLAUSE_SOUP: [&[u8]; 44] = [
+    b"patch-",
+    b"patch",
+    b"-patch-",
+    b"-patch",
+    b"patch-local-",
+    b"local-",
+    b"-local-",
+    b"local",
+    b"emul-",
+    b"emul",
+    b"-emul-",
+    b"linux",
+    b"netbsd32",
+    b"-",
+    b"--",
+    b".",
+    b"_",
+    b".orig",
+    b".rej",
+    b"~",
+    b".tar.",
+    b".tar",
+    b"tar.",
+    b".gz",
+    b"orig",
+    b"rej",
+    b"x",
+    b"aa",
+    b"1",
+    b"Size",
+    b"SHA1",
+    b"SHA512",
+    b"MD5",
+    b"bytes",
+    b"=",
+    b"(",
+    b")",
+    b"$NetBSD$",
+    b"$NetBSD:",
+    b"$NetBSD",
+    b"#",
+    b"Patch-",
+    b"EMUL-",
+    b".ORIG",
+];
+
+/// A name assembled from the clauses of the classification rule (head, body,
+/// zero to three tails) or from a free mixture of their fragments.  The
+/// caller asks the oracle for its kind; names on which two readings of the
+/// rule differ are discarded there.
+pub fn clause_name(r: &mut Rng) -> Vec<u8> {
+    let mut v: Vec<u8> = vec![];
+    if r.chance(3, 4) {
+        v.extend_from_slice(*r.pick(&CLAUSE_HEADS[..]));
+        match r.below(6) {
+            0 => v.extend_from_slice(&raw_name(r, 1, 4, false)),
+            _ => v.extend_from_slice(*r.pick(&CLAUSE_BODIES[..])),
+        }
+        let nt = match r.below(8) {
+            0..=2 => 0,
+            3..=5 => 1,
+            6 => 2,
+            _ => 3,
+        };
+        for _ in 0..nt {
+            v.extend_from_slice(*r.pick(&CLAUSE_TAILS[..]));
+        }
+    } else {
+        for _ in 0..r.range(1, 6) {
+            if r.chance(1, 8) {
+                v.extend_from_slice(&raw_name(r, 1, 3, false));
+            } else {
+                v.extend_from_slice(*r.pick(&CLAUSE_SOUP[..]));
+            }
+        }
+    }
+    if v.is_empty() || v == b"." || v == b".." {
+        v.insert(0, b'x');
+    }
+    v
+}
+
+pub const CLAUSE_CLASSES: [&str; 10] = [
+    "emul-head+patch-local-inside",
+    "emul-head+exception",
+    "patch-local-head+exception",
+    "patch-head+patch-local-inside",
+    "other-head+clause-inside",
+    "other-head+exception",
+    "upper-case-head",
+    "upper-case-exception",
+    "two-exceptions",
+    "exception-text-not-at-end",
+];
+
+/// Evidence classes of a name with respect to combinations of the rule's
+/// clauses (only meaningful for names with a definite kind).
+pub fn clause_classes(name: &[u8]) -> Vec<&'static str> {
+    let last = crate::oracle::distinfo::last_component(name);
+    let mut c = vec![];
+    let emul = last.starts_with(b"emul-") && contains(&last[5..], b"-patch-");
+    let patch = last.starts_with(b"patch-");
+    let exception = last.ends_with(b".orig")
+        || last.ends_with(b".rej")
+        || last.ends_with(b"~")
+        || contains(last, b".tar.");
+    if emul && contains(last, b"-patch-local-") {
+        c.push("emul-head+patch-local-inside");
+    }
+    if emul && exception {
+        c.push("emul-head+exception");
+    }
+    if patch && last.starts_with(b"patch-local-") && exception {
+        c.push("patch-local-head+exception");
+    }
+    if patch && !last.starts_with(b"patch-local-") && contains(last, b"patch-local-") {
+        c.push("patch-head+patch-local-inside");
+    }
+    if !emul && !patch && (contains(last, b"-patch-") || contains(last, b"patch-local-")) {
+        c.push("other-head+clause-inside");
+    }
+    if !emul && !patch && exception {
+        c.push("other-head+exception");
+    }
+    let lower = last.to_ascii_lowercase();
+    if lower != last
+        && (lower.starts_with(b"patch-") || lower.starts_with(b"emul-"))
+        && !(emul || patch)
+    {
+        c.push("upper-case-head");
+    }
+    if lower != last
+        && (emul || patch)
+        && !exception
+        && (lower.ends_with(b".orig") || lower.ends_with(b".rej") || contains(&lower, b".tar."))
+    {
+        c.push("upper-case-exception");
+    }
+    let stacked = [&b".orig"[..], b".rej", b"~", b".tar."]
+        .iter()
+        .filter(|t| contains(last, t))
+        .count();
+    if (emul || patch) && stacked >= 2 {
+        c.push("two-exceptions");
+    }
+    if (emul || patch)
+        && !exception
+        && [&b".orig"[..], b".rej", b"~"].iter().any(|t| contains(last, t))
+    {
+        c.push("exception-text-not-at-end");
+    }
+    c
+}
+
+/// Is `short` a proper trailing sub-path (whole components) of `long`?
+pub fn is_tail_of(short: &[u8], long: &[u8]) -> bool {
+    long.len() > short.len()
+        && long.ends_with(short)
+        && long[long.len() - short.len() - 1] == b'/'
+}
+
+/// A directory component that keeps a name of the given kind of that kind
+/// under every reading (for a patch the whole name must look like a patch
+/// too, so the directory is called `patch-...`).
+fn related_dir(r: &mut Rng, kind: Kind) -> Vec<u8> {
+    match kind {
+        Kind::Dist => dir_component(r, false),
+        Kind::Patch => {
+            let mut d = b"patch-".to_vec();
+            d.extend_from_slice(&raw_name(r, 0, 3, false));
+            d
+        }
+    }
+}
+
+/// A name derived from one already in the document: sharing its trailing
+/// components (`foo.tgz` / `sub/foo.tgz`, `a/b/f` / `b/f`), sharing a prefix,
+/// differing in letter case only, or differing only in bytes that a lossy
+/// UTF-8 conversion maps to the same replacement character.
+fn related_name(r: &mut Rng, kind: Kind, base: &[u8]) -> Vec<u8> {
+    let mut v = base.to_vec();
+    match r.below(8) {
+        // longer: directory components in front
+        0..=2 => {
+            let mut p = vec![];
+            for _ in 0..r.range(1, 2) {
+                p.extend_from_slice(&related_dir(r, kind));
+                p.push(b'/');
+            }
+            p.extend_from_slice(&v);
+            v = p;
+        }
+        // shorter: leading component(s) removed (else a directory is added)
+        3 | 4 => match v.iter().position(|&b| b == b'/') {
+            Some(i) => v = v[i + 1..].to_vec(),
+            None => {
+                let mut p = related_dir(r, kind);
+                p.push(b'/');
+                p.extend_from_slice(&v);
+                v = p;
+            }
+        },
+        // shared prefix: something appended, or the last byte removed
+        5 => {
+            if v.len() > 1 && r.chance(1, 3) {
+                v.pop();
+            } else if r.chance(1, 2) {
+                v.extend_from_slice(*r.pick(&CLAUSE_TAILS[..]));
+            } else {
+                v.extend_from_slice(&raw_name(r, 1, 3, false));
+            }
+        }
+        // letter case of one ASCII letter
+        6 => {
+            let letters: Vec<usize> =
+                (0..v.len()).filter(|&i| v[i].is_ascii_alphabetic()).collect();
+            if letters.is_empty() {
+                v.push(b'A');
+            } else {
+                let i = *r.pick(&letters);
+                v[i] ^= 0x20;
+            }
+        }
+        // lossy twin: one byte that is not valid UTF-8 replaced by another
+        _ => {
+            const BAD: [u8; 6] = [0xe9, 0xff, 0xfe, 0xc0, 0x80, 0xf8];
+            match v.iter().position(|b| BAD.contains(b)) {
+                Some(i) => {
+                    let old = v[i];
+                    v[i] = loop {
+                        let b = *r.pick(&BAD);
+                        if b != old {
+                            break b;
+                        }
+                    };
+                }
+                None => v.push(*r.pick(&BAD)),
+            }
+        }
+    }
+    v
+}
+
+/// Relations between the names of one kind list (in first-appearance order):
+/// evidence class names.
+pub fn relation_classes(names: &[&[u8]]) -> Vec<&'static str> {
+    let mut c = vec![];
+    if names.len() > 24 {
+        // only the trailing-component relation for large documents
+        for (i, a) in names.iter().enumerate() {
+            if !a.contains(&b'/') {
+                continue;
+            }
+            for (j, b) in names.iter().enumerate() {
+                if is_tail_of(b, a) {
+                    c.push(if j < i { "shared-tail/shorter-first" } else { "shared-tail/longer-first" });
+                }
+            }
+        }
+        return c;
+    }
+    for i in 0..names.len() {
+        for j in i + 1..names.len() {
+            let (a, b) = (names[i], names[j]);
+            if is_tail_of(a, b) {
+                c.push("shared-tail/shorter-first");
+            } else if is_tail_of(b, a) {
+                c.push("shared-tail/longer-first");
+            }
+            if a != b && (a.starts_with(b) || b.starts_with(a)) {
+                c.push("related/one-name-prefix-of-other");
+            }
+            if a != b && a.eq_ignore_ascii_case(b) {
+                c.push("related/letter-case-twins");
+            }
+            if a != b
+                && a.len() == b.len()
+                && String::from_utf8_lossy(a) == String::from_utf8_lossy(b)
+            {
+                c.push("related/lossy-utf8-twins");
+            }
+        }
+    }
+    c
+}
+
+/// Like `fresh_name`, but a share of the names are built from the clauses of
+/// the classification rule, derived from a name already in the document, or
+/// long (30-200 bytes).  Same guarantees: definite kind under every reading,
+/// `path_plain`, not in `used`.
+pub fn fresh_name_rich(
+    r: &mut Rng,
+    kind: Kind,
+    subdir: bool,
+    used: &mut Vec<Vec<u8>>,
+) -> Vec<u8> {
+    let mode = r.below(16);
+    if mode < 6 {
+        for _ in 0..24 {
+            let n = match mode {
+                0..=2 => clause_name(r),
+                3 | 4 => {
+                    // a name of the same kind already in the document
+                    if used.is_empty() {
+                        break;
+                    }
+                    let base = used[r.below(used.len())].clone();
+                    if classify(&base) != Some(kind) {
+                        continue;
+                    }
+                    related_name(r, kind, &base)
+                }
+                _ => {
+                    let mut n = match kind {
+                        Kind::Dist => vec![],
+                        Kind::Patch => b"patch-".to_vec(),
+                    };
+                    n.extend_from_slice(&raw_name(r, 30, 190, false));
+                    n
+                }
+            };
+            if n.len() <= 200
+                && classify(&n) == Some(kind)
+                && path_plain(&n)
+                && !used.iter().any(|u| *u == n)
+            {
+                used.push(n.clone());
+                return n;
+            }
+        }
+    }
+    fresh_name(r, kind, subdir, false, used)
+}
+
+/// Number of files of an occasional large document: above the sizes where
+/// small-input strategies (insertion sort below 21 elements, inline storage,
+/// linear scans) give way to the general ones.
+pub fn big_count(r: &mut Rng, cap: usize) -> usize {
+    let n = match r.below(8) {
+        0..=4 => r.range(21, 80),
+        5 => *r.pick(&[17usize, 20, 21, 22, 31, 32, 33, 63, 64, 65]),
+        6 => r.range(81, 160),
+        _ => r.range(161, 300),
+    };
+    n.min(cap)
+}
+
+// ---------------------------------------------------------------------------
 // Hashes, sizes, RCS Ids
 // ---------------------------------------------------------------------------
 
@@ -282,42 +747,167 @@ fn alg_subset(r: &mut Rng, allow_empty: bool) -> Vec<Alg> {
 // C10 documents
 // ---------------------------------------------------------------------------
 
+/// RCS Id of a generated document: usually `expanded_rcsid`, now and then a
+/// long one (200-400 bytes).
+fn doc_rcsid(r: &mut Rng) -> Vec<u8> {
+    let mut v = expanded_rcsid(r);
+    if r.chance(1, 40) {
+        let n = r.range(200, 400);
+        v.extend_from_slice(&bytes_no_lf(r, n));
+    }
+    v
+}
+
+fn file_model(r: &mut Rng, name: Vec<u8>, kind: Kind, serial: &mut u32, size: Option<u64>, allow_empty: bool) -> FileModel {
+    let sums =
+        alg_subset(r, allow_empty).into_iter().map(|a| (a, unique_hash(r, a, serial))).collect();
+    FileModel { name, kind, sums, size }
+}
+
+/// How many distfiles and patches a document has.  `big` = a large document
+/// (`big_count` files in total, split anywhere including all of one kind).
+fn doc_counts(r: &mut Rng, big: Option<usize>) -> (usize, usize) {
+    match big {
+        None => (r.below(6), r.below(5)),
+        Some(cap) => {
+            let n = big_count(r, cap);
+            let nd = match r.below(6) {
+                0 => n,
+                1 => 0,
+                2 => n - 1,
+                3 => 1,
+                _ => r.range(0, n),
+            };
+            (nd, n - nd)
+        }
+    }
+}
+
 /// A canonical document: RCS Id (or unexpanded), 0-5 distfiles each with a
-/// non-empty subset/order of algorithms and a size, 0-4 patches without size.
-pub fn canonical_doc(r: &mut Rng) -> DocModel {
+/// non-empty subset/order of algorithms and a size, 0-4 patches without size;
+/// with `big`, up to that many files in total.
+pub fn canonical_doc(r: &mut Rng, big: Option<usize>) -> DocModel {
     let mut m = DocModel::default();
-    m.rcsid = if r.chance(1, 6) { None } else { Some(expanded_rcsid(r)) };
+    m.rcsid = if r.chance(1, 6) { None } else { Some(doc_rcsid(r)) };
     let mut used = vec![];
     let mut serial = 0u32;
-    let nd = r.below(6);
-    let np = r.below(5);
+    let (nd, np) = doc_counts(r, big);
     for _ in 0..nd {
-        let name = fresh_name(r, Kind::Dist, true, false, &mut used);
-        let sums =
-            alg_subset(r, false).into_iter().map(|a| (a, unique_hash(r, a, &mut serial))).collect();
-        m.dist.push(FileModel { name, kind: Kind::Dist, sums, size: Some(gen_size(r)) });
+        let name = fresh_name_rich(r, Kind::Dist, true, &mut used);
+        let size = Some(gen_size(r));
+        m.dist.push(file_model(r, name, Kind::Dist, &mut serial, size, false));
     }
     for _ in 0..np {
-        let name = fresh_name(r, Kind::Patch, false, false, &mut used);
-        let sums =
-            alg_subset(r, false).into_iter().map(|a| (a, unique_hash(r, a, &mut serial))).collect();
-        m.patch.push(FileModel { name, kind: Kind::Patch, sums, size: None });
+        let name = fresh_name_rich(r, Kind::Patch, false, &mut used);
+        m.patch.push(file_model(r, name, Kind::Patch, &mut serial, None, false));
     }
     m
 }
 
-/// A document to be assembled through the API: the model (per-kind order =
-/// insertion order) and the interleaved insertion sequence.  Every entry has
-/// at least one line; patch entries have no size.
-pub fn api_doc(r: &mut Rng) -> (DocModel, Vec<FileModel>) {
+pub const API_SHAPES: [&str; 7] = [
+    "random-interleaving",
+    "patches-then-distfiles",
+    "distfiles-then-patches",
+    "alternating",
+    "blocks",
+    "lone-patch-among-distfiles",
+    "lone-distfile-among-patches",
+];
+
+/// A document to be assembled through the API.
+pub struct ApiDoc {
+    /// What the finished object must contain (per-kind order = order of
+    /// arrival: the parsed base first, then the insertions).
+    pub model: DocModel,
+    /// Canonical text parsed first with `from_bytes` (then extended with
+    /// `insert`), or `None` for `Distinfo::new()`.
+    pub base: Option<DocModel>,
+    /// The `insert()` sequence.
+    pub order: Vec<FileModel>,
+    /// `set_rcsid(value)` is called before the insertion with this index
+    /// (`order.len()` = after the last one).
+    pub set_rcsid: Option<(usize, Vec<u8>)>,
+    /// Write + parse + compare also before the insertion with this index.
+    pub probe_at: Option<usize>,
+    pub shape: &'static str,
+}
+
+/// The kinds of the inserted entries, in insertion order.
+fn api_kinds(r: &mut Rng, n: usize, shape: usize) -> Vec<Kind> {
+    use Kind::{Dist, Patch};
+    let np = if n < 2 { r.below(n + 1) } else { r.range(1, n - 1) };
+    match shape {
+        1 => (0..n).map(|i| if i < np { Patch } else { Dist }).collect(),
+        2 => (0..n).map(|i| if i < n - np { Dist } else { Patch }).collect(),
+        3 => {
+            let first = r.below(2);
+            (0..n).map(|i| if (i + first) % 2 == 0 { Patch } else { Dist }).collect()
+        }
+        4 => {
+            let mut v = vec![];
+            let mut k = if r.chance(1, 2) { Patch } else { Dist };
+            while v.len() < n {
+                for _ in 0..r.range(1, 9) {
+                    v.push(k);
+                }
+                k = if k == Patch { Dist } else { Patch };
+            }
+            v.truncate(n);
+            v
+        }
+        5 | 6 => {
+            let (many, lone) = if shape == 5 { (Dist, Patch) } else { (Patch, Dist) };
+            let mut v = vec![many; n];
+            if n >= 2 {
+                // anywhere but the "already partitioned" end
+                let at = if shape == 5 { r.below(n - 1) } else { r.range(1, n - 1) };
+                v[at] = lone;
+            }
+            v
+        }
+        _ => (0..n).map(|_| if r.chance(2, 5) { Patch } else { Dist }).collect(),
+    }
+}
+
+/// Every entry has at least one line; patch entries have no size.  With
+/// `big`, the finished document has up to that many files.
+pub fn api_doc(r: &mut Rng, big: Option<usize>) -> ApiDoc {
     let mut used = vec![];
     let mut serial = 0u32;
-    let n = r.range(1, 8);
+    let total = match big {
+        None => r.range(1, 8),
+        Some(cap) => big_count(r, cap),
+    };
+    // a parsed base document in a quarter of the cases
+    let mut base: Option<DocModel> = None;
+    let mut n = total;
+    if r.chance(1, 4) {
+        let mut b = DocModel::default();
+        b.rcsid = if r.chance(1, 3) { None } else { Some(doc_rcsid(r)) };
+        let nb = r.range(0, total.saturating_sub(1));
+        let nd = match r.below(4) {
+            0 => nb,
+            1 => 0,
+            _ => r.range(0, nb),
+        };
+        for i in 0..nb {
+            let kind = if i < nd { Kind::Dist } else { Kind::Patch };
+            let name = fresh_name_rich(r, kind, kind == Kind::Dist, &mut used);
+            let size = if kind == Kind::Dist { Some(gen_size(r)) } else { None };
+            let f = file_model(r, name, kind, &mut serial, size, false);
+            match kind {
+                Kind::Dist => b.dist.push(f),
+                Kind::Patch => b.patch.push(f),
+            }
+        }
+        n = total - nb;
+        base = Some(b);
+    }
+    let shape = if n >= 3 && (big.is_some() || r.chance(1, 2)) { r.below(API_SHAPES.len()) } else { 0 };
+    let kinds = api_kinds(r, n, shape);
     let mut order = vec![];
-    for _ in 0..n {
-        let kind = if r.chance(2, 5) { Kind::Patch } else { Kind::Dist };
-        let subdir = kind == Kind::Dist;
-        let name = fresh_name(r, kind, subdir, false, &mut used);
+    for kind in kinds {
+        let name = fresh_name_rich(r, kind, kind == Kind::Dist, &mut used);
         let (allow_empty, size) = match kind {
             Kind::Patch => (false, None),
             Kind::Dist => match r.below(6) {
@@ -326,21 +916,30 @@ pub fn api_doc(r: &mut Rng) -> (DocModel, Vec<FileModel>) {
                 _ => (false, Some(gen_size(r))),
             },
         };
-        let sums = alg_subset(r, allow_empty)
-            .into_iter()
-            .map(|a| (a, unique_hash(r, a, &mut serial)))
-            .collect();
-        order.push(FileModel { name, kind, sums, size });
+        order.push(file_model(r, name, kind, &mut serial, size, allow_empty));
     }
-    let mut m = DocModel::default();
-    m.rcsid = if r.chance(1, 4) { None } else { Some(expanded_rcsid(r)) };
+    let set_rcsid = if r.chance(1, 4) {
+        None
+    } else {
+        let at = match r.below(4) {
+            0 | 1 => 0,
+            2 => order.len(),
+            _ => r.below(order.len() + 1),
+        };
+        Some((at, doc_rcsid(r)))
+    };
+    let probe_at = if r.chance(1, 5) { Some(r.below(order.len() + 1)) } else { None };
+    let mut m = base.clone().unwrap_or_default();
+    if let Some((_, v)) = &set_rcsid {
+        m.rcsid = Some(v.clone());
+    }
     for f in &order {
         match f.kind {
             Kind::Dist => m.dist.push(f.clone()),
             Kind::Patch => m.patch.push(f.clone()),
         }
     }
-    (m, order)
+    ApiDoc { model: m, base, order, set_rcsid, probe_at, shape: API_SHAPES[shape] }
 }
 
 // ---------------------------------------------------------------------------
@@ -618,18 +1217,89 @@ struct WLine {
     sum: Option<(Alg, String)>,
 }
 
-/// 1-6 files; their well-formed lines interleaved arbitrarily; must-ignore
-/// lines inserted at every position.
-pub fn c11_doc(r: &mut Rng) -> C11Doc {
-    let nfiles = r.range(1, 6);
+/// 1-6 files (with `big`: up to that many); their well-formed lines
+/// interleaved arbitrarily; must-ignore lines inserted at every position.
+pub fn c11_doc(r: &mut Rng, big: Option<usize>) -> C11Doc {
+    let nfiles = match big {
+        None => r.range(1, 6),
+        Some(cap) => big_count(r, cap),
+    };
     let mut used = vec![];
-    let mut serial = 0u32;
     let mut names: Vec<(Vec<u8>, Kind)> = vec![];
     for _ in 0..nfiles {
         let kind = if r.chance(2, 5) { Kind::Patch } else { Kind::Dist };
-        let n = fresh_name(r, kind, kind == Kind::Dist, false, &mut used);
+        let n = fresh_name_rich(r, kind, kind == Kind::Dist, &mut used);
         names.push((n, kind));
     }
+    c11_build(r, names, used)
+}
+
+/// The shared-tail class: a chain of 2-4 names each of which is a trailing
+/// sub-path of the next (`foo.tgz`, `sub/foo.tgz`, `a/sub/foo.tgz`; `b/f`,
+/// `a/b/f`), optionally a sibling (`other/foo.tgz`) and up to two unrelated
+/// files, in random order of first appearance; each line must land on exactly
+/// its own entry.  (All names of a chain have the same last component, so
+/// they are of the same kind under every reading that looks at it; a patch
+/// chain uses directories called `patch-...` so that the whole-name reading
+/// agrees.)
+pub fn shared_tail_doc(r: &mut Rng) -> C11Doc {
+    let mut used: Vec<Vec<u8>> = vec![];
+    let kind = if r.chance(1, 3) { Kind::Patch } else { Kind::Dist };
+    let mut chain: Vec<Vec<u8>> = vec![];
+    let with_dir = kind == Kind::Dist && r.chance(1, 3);
+    let base = fresh_name(r, kind, with_dir, false, &mut used);
+    chain.push(base);
+    let links = match r.below(6) {
+        0..=2 => 1,
+        3 | 4 => 2,
+        _ => 3,
+    };
+    for _ in 0..links {
+        let prev = chain[chain.len() - 1].clone();
+        let mut next = None;
+        for _ in 0..32 {
+            let mut p = vec![];
+            for _ in 0..r.range(1, 2) {
+                p.extend_from_slice(&related_dir(r, kind));
+                p.push(b'/');
+            }
+            p.extend_from_slice(&prev);
+            if p.len() <= 200 && classify(&p) == Some(kind) && path_plain(&p) && !used.contains(&p) {
+                next = Some(p);
+                break;
+            }
+        }
+        let Some(p) = next else { break };
+        used.push(p.clone());
+        chain.push(p);
+    }
+    if r.chance(1, 3) {
+        // a sibling: another directory over some member of the chain
+        let under = chain[r.below(chain.len())].clone();
+        for _ in 0..32 {
+            let mut p = related_dir(r, kind);
+            p.push(b'/');
+            p.extend_from_slice(&under);
+            if p.len() <= 200 && classify(&p) == Some(kind) && path_plain(&p) && !used.contains(&p) {
+                used.push(p.clone());
+                chain.push(p);
+                break;
+            }
+        }
+    }
+    let mut names: Vec<(Vec<u8>, Kind)> = chain.into_iter().map(|n| (n, kind)).collect();
+    for _ in 0..r.below(3) {
+        let k = if r.chance(2, 5) { Kind::Patch } else { Kind::Dist };
+        let n = fresh_name_rich(r, k, k == Kind::Dist, &mut used);
+        names.push((n, k));
+    }
+    r.shuffle(&mut names);
+    c11_build(r, names, used)
+}
+
+fn c11_build(r: &mut Rng, names: Vec<(Vec<u8>, Kind)>, mut used: Vec<Vec<u8>>) -> C11Doc {
+    let nfiles = names.len();
+    let mut serial = 0u32;
     let ghost_kind = if r.chance(1, 3) { Kind::Patch } else { Kind::Dist };
     let ghost = fresh_name(r, ghost_kind, false, false, &mut used);
     let mut lines: Vec<WLine> = vec![];
@@ -728,7 +1398,7 @@ pub fn c11_doc(r: &mut Rng) -> C11Doc {
 }
 
 /// Classification table of DESIGN C11 (name, expected kind, row label).
-pub const CLASS_TABLE: [(&[u8], Kind, &str); 22] = [
+pub const CLASS_TABLE: [(&[u8], Kind, &str); 48] = [
     (b"patch-aa", Kind::Patch, "patch-aa"),
     (b"patch-", Kind::Patch, "patch-"),
     (b"emul-linux-patch-x", Kind::Patch, "emul-linux-patch-x"),
@@ -751,6 +1421,32 @@ pub const CLASS_TABLE: [(&[u8], Kind, &str); 22] = [
     (b"emul-linux-patchx", Kind::Dist, "emul-linux-patchx"),
     (b"patch-aa.original", Kind::Patch, "patch-aa.original"),
     (b"patch-localx", Kind::Patch, "patch-localx"),
+    (b"emul-linux-patch-local-x", Kind::Patch, "emul-linux-patch-local-x"),
+    (b"emul-netbsd32-patch-local-paths.c", Kind::Patch, "emul-netbsd32-patch-local-paths.c"),
+    (b"emul-linux-patch-local-", Kind::Patch, "emul-linux-patch-local-"),
+    (b"emul-linux-patch-", Kind::Patch, "emul-linux-patch-"),
+    (b"emul-linux-patch-local-x.orig", Kind::Dist, "emul-linux-patch-local-x.orig"),
+    (b"emul-linux-patch-local-x.tar.gz", Kind::Dist, "emul-linux-patch-local-x.tar.gz"),
+    (b"emul-linux-patch-1.tar.gz", Kind::Dist, "emul-linux-patch-1.tar.gz"),
+    (b"emul-linux-patch-x.tar.gz.orig", Kind::Dist, "emul-linux-patch-x.tar.gz.orig"),
+    (b"patch-local-x.orig", Kind::Dist, "patch-local-x.orig"),
+    (b"patch-local-x.rej", Kind::Dist, "patch-local-x.rej"),
+    (b"patch-local-x~", Kind::Dist, "patch-local-x~"),
+    (b"patch-local-1.tar.gz", Kind::Dist, "patch-local-1.tar.gz"),
+    (b"patch-aa.tar.gz.orig", Kind::Dist, "patch-aa.tar.gz.orig"),
+    (b"patch-aa.orig.rej", Kind::Dist, "patch-aa.orig.rej"),
+    (b"patch-aa.orig~", Kind::Dist, "patch-aa.orig~"),
+    (b"patch-aa.orig.c", Kind::Patch, "patch-aa.orig.c"),
+    (b"patch-aa~1", Kind::Patch, "patch-aa~1"),
+    (b"patch-patch-local-x", Kind::Patch, "patch-patch-local-x"),
+    (b"foo-patch-local-x", Kind::Dist, "foo-patch-local-x"),
+    (b"foo-emul-linux-patch-x", Kind::Dist, "foo-emul-linux-patch-x"),
+    (b"mypatch-local-x", Kind::Dist, "mypatch-local-x"),
+    (b"Patch-aa", Kind::Dist, "Patch-aa"),
+    (b"PATCH-aa", Kind::Dist, "PATCH-aa"),
+    (b"Emul-linux-patch-x", Kind::Dist, "Emul-linux-patch-x"),
+    (b"emul-linux-Patch-x", Kind::Dist, "emul-linux-Patch-x"),
+    (b"patch-Local-x", Kind::Patch, "patch-Local-x"),
 ];
 
 /// A variant of a table row: 1-4 name bytes inserted at an inner position.
